@@ -59,7 +59,7 @@ def base_states(rng):
     """(declared/undeclared) x (with/without rates) x (with/without data)"""
     out = []
     for npts, nch in ((0, 0), (2, 0), (0, 2), (3, 2), (1, 1)):
-        for rates in ('none', 'point', 'analog', 'both', 'both-low'):
+        for rates in ('none', 'point', 'analog', 'both', 'both-low', 'both-tiny'):
             for nfr in (0, 2):
                 b = apihist.Builder(rng, snap=False); sh = b.sh
                 for n in apihist.uniq_names(rng, npts): b.declare_point(n); sh.pts.append(trim(n))
@@ -69,8 +69,11 @@ def base_states(rng):
                 if rates == 'both-low':      # the analog rate is below the point rate: the rates announce NO sub-frame
                     if not nch or nfr: continue
                     pr, ar = rng.choice([(100.0, 50.0), (120.0, 60.0), (2.0, 1.0), (100.0, 99.0), (3.0, 2.0)])
-                if rates in ('point', 'both', 'both-low'): b.set_rate(b'POINT', pr)
-                if rates in ('analog', 'both', 'both-low'): b.set_rate(b'ANALOG', ar)
+                if rates == 'both-tiny':     # rates that are not zero but far below any resolution one may think of (the guard says "is 0")
+                    if nfr: continue
+                    pr, ar = rng.choice([(5e-5, 1e-4), (1e-5, 2e-5), (1e-30, 3e-30), (1.4e-45, 2.8e-45)])
+                if rates in ('point', 'both', 'both-low', 'both-tiny'): b.set_rate(b'POINT', pr)
+                if rates in ('analog', 'both', 'both-low', 'both-tiny'): b.set_rate(b'ANALOG', ar)
                 ok_data = (rates == 'both') or (rates == 'point' and not nch) or (rates == 'analog' and not npts) or (npts == 0 and nch == 0)
                 if nfr and ok_data:
                     for _ in range(nfr):
